@@ -238,11 +238,14 @@ def prune_tiny(nodes, budget):
     return out
 
 
+INVISIBLE_ALPHA = 0.5 / 255  # below half a step of an 8-bit channel nothing reaches the picture (A43)
+
+
 def _invisible(leaf):
     p = leaf.paint
     if isinstance(p, Grad):
-        return all(a <= 0.0 for _, _, a in p.stops)
-    return getattr(p, "alpha", 1.0) <= 0.0
+        return all(a <= INVISIBLE_ALPHA for _, _, a in p.stops)
+    return getattr(p, "alpha", 1.0) <= INVISIBLE_ALPHA
 
 
 def prune_invisible(nodes):
@@ -251,7 +254,7 @@ def prune_invisible(nodes):
     out = []
     for n in nodes:
         if isinstance(n, Group):
-            if n.alpha <= 0.0:
+            if n.alpha <= INVISIBLE_ALPHA:
                 continue
             kids = prune_invisible(n.children)
             if kids:
